@@ -56,6 +56,10 @@ add("C18", "exploration", "runtime monitoring: behaviour vectors (tree snapshots
     "Every option combination x five source forms (inline dict, cluster config, JSON file, YAML jinja template, nested relative files) is built and its behaviour observed; explicit-argument overrides, all repository orders with duplicated names, and environment dumps are checked the same way.",
     "Behaviour vector = where files appear, cache hits for three value sizes, write/forget behaviour, body execution; the matrix is enumerated completely.", "DESIGN.md §4 C18")
 
+add("C12", "exploration", "runtime monitoring: parse results compared with the parts a name was built from (independent all-decompositions enumerator classifies ambiguous strings), stored entries looked up again in fresh processes, every metadata read observed after scripted code evolutions",
+    "Names over the stated alphabet are parsed, a sample is stored under real functions/clusters on a filesystem store and found again by call, memento(), list_mementos() and list_memoized_functions(); seven evolution kinds of a pinned caller / evolving callee pair are run across fresh processes in default and named clusters, with and without cache.",
+    "Inherently ambiguous qualified names (more than one valid decomposition) are reported as the single known finding K1; module and function names are dotted identifiers.", "DESIGN.md §4 C12")
+
 NOT_BUILT = "check not built yet in this round (design in DESIGN.md §4); will be claimed once its monitor exists"
 
 
